@@ -564,6 +564,26 @@ impl<const M: usize> World<M> {
             if r0 == Ok(false) && (self.e().live_count(self.arena) != 1 || cap_after != post.cap) {
                 self.v(6, "reset_block_lost_by_refused_request", "reset_block_lost_by_refused_request".into(), format!("after reset, a refused request of {} bytes left the arena with {} block(s) and chunk_capacity()={} (was 1 block, {})", usable + 1, self.e().live_count(self.arena), cap_after, post.cap));
             }
+            if usable >= 16384 {
+                // a big kept block must also serve page-aligned requests that fit it (twice), without the allocator
+                for k in 0..2 {
+                    let b = self.bump.take().unwrap();
+                    let r = arena_op(envp, self.step, self.arena, &[Answer::RefuseRest], || b.try_alloc_layout(Layout::from_size_align(4096, 4096).unwrap()).map(|p| p.as_ptr() as usize).ok());
+                    self.bump = Some(b);
+                    match r {
+                        Ok(Some(a)) if self.e().reqs.is_empty() => {
+                            self.accept_block("post_reset_page_aligned", a, 4096, 4096, true, None);
+                        }
+                        _ => {
+                            self.v(6, "reset_capacity_unavailable", "reset_capacity_unavailable/page_aligned".into(), format!("after reset the kept block has {usable} usable bytes, but page-aligned request #{k} of 4096 bytes was not served from it (allocator requests: {})", self.e().reqs.len()));
+                            break;
+                        }
+                    }
+                }
+                let (p2, l2) = (self.observe(), (self.e().live_count(self.arena), self.e().live_bytes(self.arena)));
+                let _ = self.generic_post("post_reset_page_aligned", &p2, l2, false);
+                return;
+            }
             let b = self.bump.take().unwrap();
             let r = arena_op(envp, self.step, self.arena, &[Answer::Refuse], || b.try_alloc_layout(Layout::from_size_align(usable, 1).unwrap()).map(|p| p.as_ptr() as usize).ok());
             self.bump = Some(b);
@@ -1666,9 +1686,11 @@ impl<const M: usize> World<M> {
 // C16: panicking initialisers / Clone / Default / iterators inside arena methods
 // ------------------------------------------------------------------------------------------
 
-pub const PANIC_CB_NAMES: [&str; 14] = [
+pub const PANIC_CB_NAMES: [&str; 16] = [
     "alloc_with", "try_alloc_with", "alloc_try_with", "try_alloc_try_with", "alloc_slice_fill_with", "try_alloc_slice_fill_with", "alloc_slice_fill_clone", "alloc_slice_clone",
     "alloc_slice_fill_iter", "alloc_slice_fill_default", "alloc_slice_try_fill_with", "alloc_slice_try_fill_iter", "try_alloc_slice_clone", "try_alloc_slice_fill_iter",
+    // the initialiser itself allocates in the arena (and keeps the blocks) before it panics
+    "alloc_slice_fill_with+inner_allocs", "alloc_slice_fill_iter+inner_allocs",
 ];
 
 struct PanicDefault(#[allow(dead_code)] crate::coll::elem::D);
@@ -1698,14 +1720,27 @@ impl<const M: usize> World<M> {
             8 | 11 | 13 => K_ITER,
             _ => K_INIT,
         };
+        let kinds = if which == 15 { K_ITER } else { kinds };
         arm_fault(kinds, at as u32);
         let drops_before = dropped(0).len();
+        let kept_cells: [std::cell::Cell<usize>; 4] = Default::default();
         let r = arena_op(envp, self.step, self.arena, &[], || {
             let mk = |i: usize| {
                 tick(K_INIT, 0);
                 D::new(0, base_label + i as u32, 1)
             };
+            // an initialiser that allocates 96 bytes in the same arena for each of its first four elements
+            let inner_alloc = |i: usize| {
+                if i < 4 {
+                    let _r = Reenter::enter();
+                    if let Ok(p) = b.try_alloc_layout(Layout::from_size_align(96, 1).unwrap()) {
+                        kept_cells[i].set(p.as_ptr() as usize);
+                    }
+                }
+            };
             match which {
+                14 => { b.alloc_slice_fill_with(len, |i| { inner_alloc(i); mk(i) }); }
+                15 => { b.alloc_slice_fill_iter(LoggedIter { i: 0, n: len, f: |i| { inner_alloc(i); tick(K_ITER, 0); D::new(0, base_label + i as u32, 1) } }); }
                 0 => { b.alloc_with(|| mk(0)); }
                 1 => { let _ = b.try_alloc_with(|| mk(0)); }
                 2 => { let _ = b.alloc_try_with(|| -> Result<D, ()> { Ok(mk(0)) }); }
@@ -1739,6 +1774,12 @@ impl<const M: usize> World<M> {
                 self.v(16, "double_drop", format!("double_drop/{what}"), format!("{what}: value {l} dropped twice"));
             }
         }
+        // blocks the initialiser allocated stay the caller's
+        for c in kept_cells.iter() {
+            if c.get() != 0 && !self.accept_block("allocation_inside_initialiser", c.get(), 96, 1, true, None) {
+                self.terminal = true;
+            }
+        }
         match (&r, fired) {
             (Err(PanicClass::Injected), true) | (Ok(()), false) => {}
             (Err(p), _) if !matches!(p, PanicClass::Oom) => self.v(16, "unexpected_panic", format!("unexpected_panic/{what}"), format!("{what}: {:?}", p)),
@@ -1758,6 +1799,29 @@ impl<const M: usize> World<M> {
             self.v(x.prop, x.clause, x.key, x.detail);
         }
         if self.judge {
+            let b = self.bump.take().unwrap();
+            if which >= 14 {
+                // a larger slice the arena initialises: it must not land on the blocks the initialiser kept
+                let r3 = arena_op(envp, self.step, self.arena, &[], || b.try_alloc_slice_fill_copy(400, 0x5Au8).map(|p| p.as_ptr() as usize).ok());
+                if let Ok(Some(a3)) = r3 {
+                    self.bump = Some(b);
+                    if !self.accept_block("alloc_after_caught_panic", a3, 400, 1, true, None) {
+                        self.v(16, "arena_unusable_after_panic", format!("arena_unusable_after_panic/{what}"), format!("{what}: a slice allocated after the caught panic overlaps memory the caller still owns"));
+                    }
+                    let (p2, l2) = (self.observe(), (self.e().live_count(self.arena), self.e().live_bytes(self.arena)));
+                    let nv2 = self.viol.len();
+                    let _ = self.generic_post("alloc_after_caught_panic", &p2, l2, false);
+                    if self.viol.len() > nv2 {
+                        self.v(16, "arena_unusable_after_panic", format!("arena_unusable_after_panic/{what}/live_block_changed"), format!("{what}: after the caught panic a new allocation changed a block the initialiser had allocated"));
+                    }
+                    let b2 = self.bump.take().unwrap();
+                    self.bump = Some(b2);
+                } else {
+                    self.bump = Some(b);
+                }
+            } else {
+                self.bump = Some(b);
+            }
             let b = self.bump.take().unwrap();
             let r2 = arena_op(envp, self.step, self.arena, &[], || b.try_alloc_layout(Layout::from_size_align(8, 8).unwrap()).map(|p| p.as_ptr() as usize).ok());
             self.bump = Some(b);
